@@ -254,6 +254,7 @@ def run_shards(binary, args_for_shard, nshards, timeout, env=None, tag="h", work
 # Sanitizer log parsing
 
 _FRAME = re.compile(r"^\s*#(\d+)\s+0x[0-9a-f]+\s+(?:in\s+)?(.*?)\s+(\S+?):(\d+)(?::\d+)?\s*$")
+_FRAME_TSAN = re.compile(r"^\s*#(\d+)\s+(?!0x)(.*?)\s+(/\S+?|<null>):(\d+)(?::\d+)?\s+\(.*\)\s*$")
 _FRAME2 = re.compile(r"^\s*#(\d+)\s+0x[0-9a-f]+\s+(?:in\s+)?(.*)$")
 
 
@@ -327,7 +328,7 @@ def parse_sanitizer_text(txt):
             if re.search(r"ERROR: AddressSanitizer|WARNING: ThreadSanitizer|runtime error:", l2) or l2.startswith("@@CASE "):
                 break
             text.append(l2)
-            fm = _FRAME.match(l2)
+            fm = _FRAME.match(l2) or _FRAME_TSAN.match(l2)
             if fm:
                 if fm.group(1) == "0" and stacks[-1]:
                     stacks.append([])
